@@ -10,6 +10,7 @@
      storage locations distinct ............... C05_location_injective (hypotheses no_suffix_clash, no_empty_component) *)
 From TS Require Import model.Base model.Chunk model.Batch model.Pipeline proofs.ChunkProofs proofs.BatchProofs proofs.PipelineProofs.
 From Coq Require Import Permutation.
+From TS Require Import model.Dispatch gen.DispatchGen model.DispatchGenObs proofs.DispatchInst gen.ChunkGen proofs.ChunkGenProofs.
 
 (* Chunking is invisible at the byte level: for every shape with positive extents, element size and chunk knob
    >= 1, the pieces that prepare_write stages (one piece, or the dim-0 chunks when the tensor exceeds the knob)
@@ -59,3 +60,44 @@ Example C01_example_pieces :
   pieces [5; 2] 2 8 (map Z.of_nat (seq 0 20)) =
   Some [map Z.of_nat (seq 0 8); map Z.of_nat (seq 8 8); map Z.of_nat (seq 16 4)].
 Proof. vm_compute. reflexivity. Qed.
+
+(* ------------------------------------------------------------------ the routing code, as it is in the source now *)
+(* gen/DispatchGen.v is regenerated on every run from io_preparer.py / manifest.py by translator/gen_dispatch.py.
+   Every class of object (inline primitive, ShardedTensor, DTensor, plain tensor, anything else - with the isinstance
+   flags Python gives them: the two distributed tensor classes ARE torch.Tensor subclasses) is written by the preparer
+   the composition above assumes (a plain tensor by the chunking preparer exactly when its byte size exceeds the knob),
+   the entry that preparer produces is read back by the inverse preparer, and the byte limit of a budgeted read reaches
+   exactly the two preparers that can tile. *)
+Theorem C01_generated_routing : forall (o : oclass) (nbytes knob : Z),
+  fst (kind_of_oclass o nbytes knob) = wanted_wkind o nbytes knob /\
+  g_read_kind (entry_class_of (fst (kind_of_oclass o nbytes knob)))
+    = Some (reader_of (wanted_wkind o nbytes knob), limit_reaches (wanted_wkind o nbytes knob)) /\
+  snd (kind_of_oclass o nbytes knob) = match o with OShardedTensor | ODTensor => false | _ => true end.
+Proof.
+  intros o nbytes knob. split; [exact (write_routing o nbytes knob)|].
+  split; [exact (routing_roundtrip o nbytes knob) | exact (write_sets_replicated o nbytes knob)].
+Qed.
+Print Assumptions C01_generated_routing.
+
+(* Entries that are not objects (containers, the abstract base) are refused by prepare_read, and nothing else is *)
+Theorem C01_generated_read_refuses_only_containers : forall c : eclass,
+  g_read_kind c = None <-> In c [EEntry; EList; EDict; EOrderedDict].
+Proof. exact read_routing_none. Qed.
+Print Assumptions C01_generated_read_refuses_only_containers.
+
+(* the size arithmetic of chunking / slabs / merged reads the data-path theorems rest on is the source's *)
+Theorem C01_generated_arithmetic_agrees :
+  (forall shape dim esize csz, chunk_tensor_g shape dim esize csz = chunk_tensor shape dim esize csz)
+  /\ (forall T st p is_tbs batchable numel esize,
+        bw_step_g T st (p, is_tbs, batchable, numel, esize) = bw_step T st (p, is_tbs && batchable, numel * esize))
+  /\ (forall rs loc, merge_location_g rs loc = merge_location rs loc).
+Proof.
+  split; [exact chunk_tensor_g_eq|]. split; [exact bw_step_g_eq | exact merge_location_g_eq].
+Qed.
+Print Assumptions C01_generated_arithmetic_agrees.
+
+Example C01_example_routing :
+  kind_of_oclass OPlainTensor 33 32 = (WChunked, true) /\ kind_of_oclass OPlainTensor 32 32 = (WTensor, true) /\
+  kind_of_oclass OShardedTensor 33 32 = (WSharded, false) /\ g_read_kind EChunked = Some (RChunked, true) /\
+  g_read_kind EList = None.
+Proof. vm_compute. repeat split. Qed.
